@@ -14,8 +14,13 @@ from multiprocessing.connection import wait
 AS_LIMIT = 3 << 30            # hard backstop; the RSS budget below is what decides
 
 
-def cpu_budget(n):
-    return 3.0 + 4e-6 * n
+# decompress_code may legitimately expand ANY input, however short, up to CODE_MAX_SIZE = 35 MiB (the size comes from the trailer and is
+# capped by that constant): tens of millions of interpreted loop iterations.  That is a bound independent of the input, not a hang.
+CPU_BASE = {'lzss': 40.0}
+
+
+def cpu_budget(n, kind=None):
+    return CPU_BASE.get(kind, 3.0) + 4e-6 * n
 
 
 def rss_budget(n):
@@ -228,7 +233,7 @@ class Pool:
                         done = True
                         break
                     w['task'] = t
-                    w['deadline'] = time.time() + 4 * cpu_budget(len(t[2])) + 5
+                    w['deadline'] = time.time() + 4 * cpu_budget(len(t[2]), t[1]) + 5
                     w['conn'].send_bytes(pickle.dumps((t[1], t[2])))
                     pending += 1
             if pending == 0 and done:
@@ -249,8 +254,8 @@ class Pool:
                         continue
                     bad = None
                     n = len(data)
-                    if cpu > cpu_budget(n):
-                        bad = f'CPU time {cpu:.2f}s over the budget {cpu_budget(n):.2f}s for {n} input bytes'
+                    if cpu > cpu_budget(n, kind):
+                        bad = f'CPU time {cpu:.2f}s over the budget {cpu_budget(n, kind):.2f}s for {n} input bytes'
                     grown = rss1 - rss0
                     if rss1 > rss_budget(n) + (150 << 20) and grown > rss_budget(n):
                         bad = f'resident set grew by {grown >> 20} MiB (to {rss1 >> 20} MiB) for {n} input bytes'
@@ -263,7 +268,7 @@ class Pool:
                         self._replace(i)          # high-water mark is sticky: start afresh
                 elif now > w['deadline']:
                     on_result(key, kind, data, dict(outcome='timeout', cpu=None, rss=None,
-                                                    bad=f'no result after {now - w["deadline"] + 4 * cpu_budget(len(data)) + 5:.0f}s wall clock for {len(data)} input bytes (killed)'))
+                                                    bad=f'no result after {now - w["deadline"] + 4 * cpu_budget(len(data), kind) + 5:.0f}s wall clock for {len(data)} input bytes (killed)'))
                     self._replace(i)
                     pending -= 1
 
